@@ -346,6 +346,8 @@ pub(crate) fn run(opts: &Opts, report: &mut Report) {
             reseal: is_proof_scn,
             tick_after_change: false,
             honest_control: is_proof_scn,
+            follow_up: false,
+            view_only_on_change: false,
             chunk: (chunk, CHUNKS),
         };
         let mut by_class: BTreeMap<String, u64> = BTreeMap::new();
